@@ -23,6 +23,7 @@ package main
 //	flush <cb> | close <cb> <code> <hexreason>
 //	peer <fin> <rsv> <op> <masked> <hex>   the peer sends one frame;  peereof: the peer half-closes
 //	drain                               the peer reads everything the client's kernel has accepted
+//	setmax                              SetMaxMessageSize(<the configured value + 70000>), with whatever is in flight
 //	poll                                ioc.PollOne()
 //	finish                              last flush, then drain / feed pending reads / poll until nothing moves
 //
@@ -81,6 +82,7 @@ type wsconcWorld struct {
 	peerEnds  []int // cumulative end offset of every frame the peer has sent
 	peerSent  int
 	peerFrag  bool // the peer's last data frame was not final
+	maxMsg    int  // the configured maximum message size
 	peerClose bool // the peer has sent a Close frame: a conforming peer sends nothing after it, and neither does finish()
 	rxBytes   int  // bytes the adapter has read
 	rxFrames  int  // peer frames completely read by the adapter
@@ -253,6 +255,7 @@ func (lw *wsconcWorld) setup(f []string) string {
 	}
 	if max != "" {
 		ws.SetMaxMessageSize(atoi(max))
+		lw.maxMsg = atoi(max)
 	}
 	ws.SetControlCallback(func(mt websocket.MessageType, payload []byte) {
 		lw.ev("ctl %d %s st=%s", int(mt), wsHx(payload), wsState(ws.State()))
@@ -344,6 +347,14 @@ func (lw *wsconcWorld) exec(f []string) {
 			lw.ws.AsyncClose(websocket.CloseCode(atoi(f[2])), string(unhx(f[3])), plain)
 		}
 		lw.ev("ret %s", lw.st())
+	case "setmax":
+		// the application raises the maximum message size while reads / writes are in flight (scripts with this action
+		// never send a frame above the original maximum): nothing observable changes
+		if lw.ws != nil && lw.maxMsg > 0 {
+			lw.maxMsg += 70000
+			lw.ws.SetMaxMessageSize(lw.maxMsg)
+		}
+		lw.ev("skip setmax")
 	case "poll":
 		if lw.depth > 0 {
 			lw.ev("skip poll")
